@@ -124,7 +124,14 @@ pub fn run_fault(c: &Case, dir: &Path, findings: &Findings) -> Result<CaseOut, F
                     let _ = wait_quiet(ex.s(), false, crate::interp::max_wait()).await;
                     let hit = fired(&session) > before;
                     match (r, hit) {
-                        (Ok(()), false) => {}
+                        (Ok(()), false) => {
+                            // open finding: a failed write resurrected by an index regeneration is a record pearl counts
+                            // and the model does not - calls that depend on record counts (force_update predicates)
+                            // may take another branch; only the blob structure is re-aligned, data answers stay judged
+                            if !phantom.is_empty() && ex.known(PHANTOM) {
+                                reconcile_structure(&mut ex).await;
+                            }
+                        }
                         (Err(f), false) => return Err(f),
                         (r, true) => {
                             faulted_ops += 1;
@@ -343,6 +350,141 @@ fn enumerated(thorough: bool) -> Vec<Case> {
     out
 }
 
+/// "keeps rotating blobs": a fault hits the background rotation of a full, aged active blob (create / header write / header
+/// sync of the next blob, or the record write that fills the blob); after the fault has cleared, the next writes must get the
+/// blob rotated, and rotation must go on afterwards.
+#[derive(Clone, Debug, serde::Serialize, serde::Deserialize)]
+pub struct RotCase {
+    pub cfg: Cfg,
+    pub kind: FailKind,
+    pub nth: u16,
+    pub eio: bool,
+    pub short: Option<u16>,
+    /// limit by record count (else by size)
+    pub by_count: bool,
+}
+
+fn rot_cases(thorough: bool) -> Vec<RotCase> {
+    let mut v = vec![];
+    for by_count in [true, false] {
+        for rt_workers in if thorough { vec![2usize, 0] } else { vec![2usize] } {
+            let mut kinds: Vec<(FailKind, u16, Option<u16>)> = vec![(FailKind::Create, 1, None), (FailKind::Sync, 1, None), (FailKind::Write, 1, None), (FailKind::Write, 2, None), (FailKind::Write, 2, Some(7)), (FailKind::Write, 2, Some(19))];
+            if thorough {
+                kinds.extend([(FailKind::Create, 2, None), (FailKind::Sync, 2, None), (FailKind::Write, 3, None), (FailKind::Write, 1, Some(30)), (FailKind::Write, 2, Some(0)), (FailKind::Open, 1, None)]);
+            }
+            for (kind, nth, short) in kinds {
+                let mut cfg = Cfg { keylen: 8, rt_workers, allow_dup: true, defer_ms: (2, 5), ..Cfg::default() };
+                if by_count {
+                    cfg.max_data_in_blob = 3;
+                } else {
+                    cfg.max_blob_size = 20 + 3 * 85;
+                }
+                v.push(RotCase { cfg, kind, nth, eio: nth % 2 == 0, short, by_count });
+            }
+        }
+    }
+    v
+}
+
+pub fn run_rot(c: &RotCase, dir: &Path, _findings: &Findings) -> Result<CaseOut, Failure> {
+    let rt = c.cfg.runtime();
+    let _ = std::fs::remove_dir_all(dir);
+    let session = vio::start_session(dir);
+    let res = rt.block_on(async {
+        let fail = |clause: &str, detail: String, step: usize| -> Result<CaseOut, Failure> { Err(Failure { clause: clause.into(), detail, step, op: "rotation-after-fault".into() }) };
+        let s = match sut::open(&c.cfg, dir, false).await {
+            Ok(s) => s,
+            Err(e) => return fail("init/err", format!("{:#}", e), 0),
+        };
+        let keylen = c.cfg.keylen;
+        let mut acked: Vec<(u8, Vec<u8>)> = vec![];
+        let mut n = 0u8;
+        let mut stats = crate::interp::Stats::default();
+        // every record is 20 bytes of data: 65 + 8 + 20 = 93 bytes with key length 8
+        macro_rules! put {
+            ($tolerate:expr) => {{
+                n += 1;
+                let val = value_bytes(n as usize, 20, 0);
+                stats.writes += 1;
+                match s.write(&sut::key_bytes(keylen, n), bytes::Bytes::from(val.clone()), n as u64, None).await {
+                    Ok(()) => acked.push((n, val)),
+                    Err(e) => {
+                        if !$tolerate {
+                            return fail("fault/write-after-fault-failed", format!("write {} failed although no fault is armed: {:#}", n, e), n as usize);
+                        }
+                    }
+                }
+            }};
+        }
+        put!(false);
+        put!(false);
+        // the rotation debounce looks at the blob's age
+        tokio::time::sleep(Duration::from_millis(230)).await;
+        let k = match c.kind {
+            FailKind::Create => vio::Kind::Create,
+            FailKind::Open => vio::Kind::Open,
+            FailKind::Write => vio::Kind::Write,
+            FailKind::Sync => vio::Kind::Sync,
+        };
+        session.arm(vio::Failpoint { kind: k, ext: "blob".into(), nth: c.nth as u64, errno: if c.eio { libc::EIO } else { libc::ENOSPC }, short: c.short.map(|x| x as u64), sticky: false, seen: 0, fired: 0 });
+        let blobs_before = s.blobs_count().await;
+        // these writes fill the blob; the background rotation (or the write itself) meets the fault
+        put!(true);
+        put!(true);
+        let _ = wait_quiet(s.as_ref(), true, crate::interp::max_wait()).await;
+        let fired: u64 = session.failpoints().iter().map(|f| f.fired).sum();
+        session.disarm_all();
+        let mut labels = BTreeSet::new();
+        let blobs_at_fault = s.blobs_count().await;
+        if fired > 0 {
+            labels.insert("fault_fired".to_string());
+            if blobs_at_fault == blobs_before {
+                labels.insert("rotation_failed_under_fault".to_string());
+            }
+        }
+        // the fault is gone: the blob is still full and old, so the next writes ask for the rotation again
+        put!(false);
+        put!(false);
+        match wait_quiet(s.as_ref(), true, crate::interp::max_wait()).await {
+            Ok(st) if st.worker_alive() => {}
+            Ok(st) | Err(st) => return fail(if st.worker_alive() { "bg/stall" } else { "bg/worker-dead" }, format!("after the fault: {:?}", st), n as usize),
+        }
+        let blobs_after = s.blobs_count().await;
+        if blobs_after <= blobs_before {
+            return fail("fault/no-rotation-after-fault", format!("{} failpoint(s) fired during the rotation; after the fault cleared {} more writes went into the full, aged blob but it was not rotated: blobs_count {} -> {} -> {}, {:?} records in the active blob (limit {})", fired, 2, blobs_before, blobs_at_fault, blobs_after, s.records_count_in_active().await, if c.by_count { "3 records" } else { "275 bytes" }), n as usize);
+        }
+        // and rotation goes on
+        tokio::time::sleep(Duration::from_millis(230)).await;
+        for _ in 0..5 {
+            put!(false);
+        }
+        let _ = wait_quiet(s.as_ref(), true, crate::interp::max_wait()).await;
+        let blobs_later = s.blobs_count().await;
+        if blobs_later <= blobs_after {
+            return fail("fault/rotation-stopped-later", format!("blobs_count stays {} after 5 more writes into an aged blob", blobs_later), n as usize);
+        }
+        for (k, want) in &acked {
+            stats.queries += 1;
+            match s.read(&sut::key_bytes(keylen, *k)).await {
+                Ok(sut::RR::Found(d)) if &d == want => {}
+                Ok(o) => return fail("read/mismatch", format!("key {} acknowledged, read returns {}", k, o.class()), *k as usize),
+                Err(e) => return fail("read/err", format!("key {}: {:#}", k, e), *k as usize),
+            }
+        }
+        if let Err(e) = s.close().await {
+            return fail("close/err", format!("{:#}", e), n as usize);
+        }
+        Ok(CaseOut { nontrivial: fired > 0, labels, stats, known_hits: Default::default(), weight: 1 })
+    });
+    vio::end_session(dir);
+    drop(rt);
+    res
+}
+
+fn sample_rot(c: &RotCase) -> Value {
+    json!({"limit": if c.by_count { "3 records" } else { "275 bytes" }, "rt_workers": c.cfg.rt_workers, "fault": format!("{:?} #{} on *.blob, {}, short={:?}", c.kind, c.nth, if c.eio { "EIO" } else { "ENOSPC" }, c.short)})
+}
+
 pub fn run(ctx: &RunCtx) -> PropResult {
     let mut report = Report::default();
     let findings = ctx.findings.clone();
@@ -352,10 +494,12 @@ pub fn run(ctx: &RunCtx) -> PropResult {
     run_generated(ctx, "fault", ctx.tier.pick(3000, 40_000), fault_strategy, runf, &sample, &mut report);
     let runf = |c: &Case, d: &Path| run_fault(c, d, &findings);
     run_enumerated(ctx, "fault-nth", enumerated(ctx.tier == Tier::Thorough), runf, &sample, &mut report);
+    let runf = |c: &RotCase, d: &Path| run_rot(c, d, &findings);
+    run_enumerated(ctx, "fault-rotation", rot_cases(ctx.tier == Tier::Thorough), runf, &sample_rot, &mut report);
     PropResult {
         report,
         level: "fault_enumeration",
-        rule: "Histories (data ops around the write-path thresholds, switch/close/create/restore/force_update, wait-idle, restarts) with one-shot failpoints armed at generated steps through the I/O hook: kind in {create, open, write, short write of b bytes, sync} x {blob, index files} x n-th matching operation (1..5) x {ENOSPC, EIO}; client calls and background dumps alike. Oracle: an unexpected error without a fired failpoint is a violation; a write that returned Err is rolled back in the model and must never be served; after every step every untainted key answers read/contains/read_all*/read_with exactly as the model (every record acknowledged earlier stays readable with exact bytes); after the fault clears a write to every key and a delete succeed and take effect, the worker is alive and idle is reached; after restart every blob is served, or sits byte-identical in the corrupted dir (then its records leave the model). A key hit by a faulted delete is excluded (a delete may be applied to some blobs only). An enumerated phase repeats one fixed history with the n-th write / sync / create / open on blob / index files failing for every n the fault-free run performs, on a fresh and on a reopened (append-mode) active blob. Non-trivial = a failpoint fired during a call. distinct = FNV hash of the serialized case.".into(),
+        rule: "Histories (data ops around the write-path thresholds, switch/close/create/restore/force_update, wait-idle, restarts) with one-shot failpoints armed at generated steps through the I/O hook: kind in {create, open, write, short write of b bytes, sync} x {blob, index files} x n-th matching operation (1..5) x {ENOSPC, EIO}; client calls and background dumps alike. Oracle: an unexpected error without a fired failpoint is a violation; a write that returned Err is rolled back in the model and must never be served; after every step every untainted key answers read/contains/read_all*/read_with exactly as the model (every record acknowledged earlier stays readable with exact bytes); after the fault clears a write to every key and a delete succeed and take effect, the worker is alive and idle is reached; after restart every blob is served, or sits byte-identical in the corrupted dir (then its records leave the model). A key hit by a faulted delete is excluded (a delete may be applied to some blobs only). An enumerated phase repeats one fixed history with the n-th write / sync / create / open on blob / index files failing for every n the fault-free run performs, on a fresh and on a reopened (append-mode) active blob. A third phase (fault-rotation) lets the fault hit the background rotation of a full, aged active blob (create / header write incl. short / header sync of the next blob, or the record write that fills the blob; limits by count and by size): after the fault has cleared the next two writes must get the blob rotated, five later writes must rotate again, the worker stays alive and every acknowledged record reads back. Non-trivial = a failpoint fired during a call. distinct = FNV hash of the serialized case.".into(),
         assumptions: {
             let mut a = common_assumptions();
             a.push("faults are injected at pearl's own file-operation call sites (hook H2); the kernel is not involved, so errno-specific kernel side effects are not modelled".into());
@@ -365,6 +509,10 @@ pub fn run(ctx: &RunCtx) -> PropResult {
 }
 
 pub fn replay_other(phase: &str, case: &Value, dir: &Path, findings: &Findings) -> Option<Result<CaseOut, Failure>> {
+    if phase == "fault-rotation" {
+        let runf = |c: &RotCase, d: &Path| run_rot(c, d, findings);
+        return serde_json::from_value::<RotCase>(case.clone()).ok().map(|c| guarded(&c, dir, &runf));
+    }
     if phase.starts_with("fault") {
         let runf = |c: &Case, d: &Path| run_fault(c, d, findings);
         serde_json::from_value::<Case>(case.clone()).ok().map(|c| guarded(&c, dir, &runf))
